@@ -1,6 +1,7 @@
 package main
 
 import (
+	"bytes"
 	"fmt"
 	"math"
 	"time"
@@ -96,6 +97,38 @@ func genC11(r *Rng) (coq []string, ops []rpOp, fails []MonitorFailure, stat map[
 			consts = []float64{after.C, after.M}
 		}
 		coq = append(coq, fmt.Sprintf("RState %s %s %s %d", bitsList(after.Ys), bitsList(after.Window), bitsList(consts), after.Pv))
+		// a restart now and then: the predictor is stored and loaded into a fresh one; neither its curve nor
+		// its version may change, and every later answer must be that of the uninterrupted predictor (the
+		// model simply carries on)
+		if r.Chance(1, 4) {
+			var buf bytes.Buffer
+			var fresh *flap.VerifPred
+			if poly {
+				fresh, _ = flap.VerifNewPolyBestFit(cfg)
+			} else {
+				fresh, _ = flap.VerifNewBestFit(cfg)
+			}
+			if e1 := pr.To(&buf); e1 != nil {
+				fail("predictor-cannot-be-stored", fmt.Sprintf("To: %v", e1))
+			} else if e2 := fresh.From(&buf); e2 != nil {
+				fail("predictor-cannot-be-loaded", fmt.Sprintf("From: %v", e2))
+			} else {
+				pr = fresh
+				re := pr.State()
+				if re.Pv != after.Pv || fbits(re.M) != fbits(after.M) || fbits(re.C) != fbits(after.C) || bitsList(re.Consts) != bitsList(after.Consts) {
+					fail("reload-changed-curve-or-version", fmt.Sprintf("after storing and loading the predictor: version %d -> %d, line (%v,%v) -> (%v,%v), constants %v -> %v", after.Pv, re.Pv, after.M, after.C, re.M, re.C, after.Consts, re.Consts))
+				}
+				var rc []float64
+				if poly {
+					rc = re.Consts
+				} else {
+					rc = []float64{re.C, re.M}
+				}
+				coq = append(coq, fmt.Sprintf("RState %s %s %s %d", bitsList(re.Ys), bitsList(re.Window), bitsList(rc), re.Pv))
+				ops = append(ops, rpOp{"op": "store-and-load"})
+				stat["reloads"]++
+			}
+		}
 		// queries at and after the last data point
 		nq := 2
 		if i == len(ys)-1 {
